@@ -5,7 +5,7 @@ ROUNDS="${*:-a b c d}"
 for suf in $ROUNDS; do
   for d in /tmp/seeds/C*-${suf}-*; do
     n=$(basename $d); p=$(echo $n | cut -d- -f1)
-    case "$n" in C03-a-1|C17-a-2|C20-a-1) echo "$n: invalidated (skipped)"; continue;; esac
+    case "$n" in C03-a-1|C17-a-2|C20-a-1|C01-c-2) echo "$n: invalidated (skipped)"; continue;; esac
     r=$(/verif/tools/try_seed.sh $d $p 2>&1 | grep -E "^(OK|FAIL)" | tail -1 | cut -c1-150)
     [ -z "$r" ] && r="patch does not apply or check did not finish"
     echo "$n: $r"
